@@ -81,16 +81,19 @@ func newBucketStats() *BucketStats {
 // Set creates a new bucket at the given index that uses the rules to filter
 // incoming measures
 func (bs *BucketStats) Set(index int, rules []string, stats *Stats) error {
-	bs.rules[index] = make(bucketRules, len(rules))
+	// parse everything first: a malformed rule must not leave rules behind
+	// that have no bucket to fill
+	parsed := make(bucketRules, len(rules))
 	for i, str := range rules {
 		rule, err := newBucketRule(str)
 		if err != nil {
 			return xerrors.Errorf("bucket rule: %v", err)
 		}
 
-		bs.rules[index][i] = rule
+		parsed[i] = rule
 	}
 
+	bs.rules[index] = parsed
 	bs.buckets[index] = stats
 	return nil
 }
